@@ -54,11 +54,12 @@ BaseFor(c) ==
   \o [k \in 1..Len(c.allow) |-> c.allow[k].base]
 
 \* r1 on entry and its taint (C09)
-R1For(c) ==
+R1ForBases(c, bases) ==
   LET m == MemFor(c) IN
-  IF Len(m[R_MBUF]) > 0 THEN BaseFor(c)[R_MBUF]
-  ELSE IF Len(m[R_PKT]) > 0 THEN BaseFor(c)[R_PKT]
+  IF Len(m[R_MBUF]) > 0 THEN bases[R_MBUF]
+  ELSE IF Len(m[R_PKT]) > 0 THEN bases[R_PKT]
   ELSE Zero
+R1For(c) == R1ForBases(c, BaseFor(c))
 R1Taint(c) == IF c.vm = "fixed" THEN "m" ELSE "c"
 
 EnvFor(c) == [prog |-> c.prog, base |-> BaseFor(c), helpers |-> c.helpers,
